@@ -1434,6 +1434,17 @@ impl PeerConnection {
                 || previous.media_sections != desc.media_sections
         });
 
+        // A changed fingerprint on a started DTLS transport is refused (see below); refuse it
+        // here already, before the re-INVITE is applied and the signaling state advances, so
+        // that the rejected call leaves everything as it was.
+        if self.inner.dtls_transport.lock().is_some()
+            && *self.inner.remote_dtls_fingerprint.lock() != remote_dtls_fingerprint
+        {
+            return Err(RtcError::InvalidState(
+                "changing remote DTLS fingerprint after transport start is not supported".into(),
+            ));
+        }
+
         if previous_remote.is_some() && media_parameters_changed {
             // Apply changed media parameters to the existing transports.
             let current_state = *self.inner.signaling_state.borrow();
